@@ -22,7 +22,12 @@
 (*   "str_retain"    String::retain with its SetLenOnDrop guard;           *)
 (*   "dedup"         Vec::dedup_by = partition_dedup_by (swap-based, so    *)
 (*                   the slice stays a permutation at every predicate      *)
-(*                   call) followed by truncate.                           *)
+(*                   call) followed by truncate;                           *)
+(*   "splice"        Splice::drop (fill the gap, move the tail by the      *)
+(*                   size_hint's lower bound, collect the rest, move       *)
+(*                   again, fill) and Drain::drop, with the replacement    *)
+(*                   iterator free to panic at every next() and to report  *)
+(*                   any lower bound up to what it really has.             *)
 (* Variant = "code" is the code as it is; the other variants are the       *)
 (* pre-fix / seeded forms (configs *_bad expect a violation): they show    *)
 (* that the laws have teeth and document why each guard is there.          *)
@@ -31,7 +36,7 @@ EXTENDS Integers, Sequences, FiniteSets, TLC
 
 CONSTANTS N,        \* number of elements / characters
           Machine,  \* "drain_filter" | "truncate" | "str_retain" | "dedup"
-          Variant   \* "code" | "no_backshift" | "drop_then_set_len" | "advance_first" | "copy_not_swap"
+          Variant   \* "code" | "no_backshift" | "drop_then_set_len" | "advance_first" | "copy_not_swap" | "leftover_still_owned"
 
 Ids == 1..N
 Widths == {1, 2, 3}
@@ -192,20 +197,117 @@ DDNext ==
                  /\ pc' = IF dpanic THEN "done" ELSE "run"
                  /\ UNCHANGED <<buf, del, oldLen, pflag, held, take, width>>
 
+\* ------------------------------------------------------------------- splice
+\* vec = [1..N]; the range [del, oldLen) (0-based, chosen freely) is replaced by `take` new elements (ids N+1..);
+\* the removed elements are dropped first.  idx = number of new elements the iterator has produced so far,
+\* held = the temporary `collected` vector, pflag = "the tail has been moved for the collected rest".
+\* pc: "fill" (fill the gap) -> "hint" -> "fill2" -> "collect" -> "fill3" -> "drain" (Drain::drop) -> "done"
+CAP == 2 * N + 2
+SPInit ==
+  /\ del \in 0..N /\ oldLen \in 0..N /\ del <= oldLen           \* the range
+  /\ take \in 0..(N - 1)                                          \* how many replacement elements there are
+  /\ buf = [i \in 1..CAP |-> IF i <= N THEN i ELSE 0]
+  /\ vlen = del                                                   \* drain(): set_len(start)
+  /\ idx = 0 /\ pflag = FALSE /\ held = {} /\ panicked = FALSE
+  /\ drops = [i \in 1..(2 * N) |-> IF i > del /\ i <= oldLen THEN 1 ELSE 0]   \* the removed elements: dropped
+  /\ pc = "fill" /\ width = [i \in Ids |-> 1]
+
+\* oldLen is reused as tail_start (it moves when the tail is moved); the amount by which the tail has been moved
+\* so far is carried in width[1] (an integer register)
+SPShift == width[1] - 1
+TailLen == N - (oldLen - SPShift)
+
+NextNew == N + idx + 1
+\* one call of replace_with.next() that yields an element into slot vlen + 1 (a gap slot), or panics
+SPFillStep(nextpc) ==
+  IF vlen >= oldLen THEN pc' = nextpc /\ UNCHANGED <<buf, vlen, idx, del, oldLen, pflag, held, drops, take, panicked, width>>   \* gap full
+  ELSE IF idx >= take THEN pc' = "drain" /\ UNCHANGED <<buf, vlen, idx, del, oldLen, pflag, held, drops, take, panicked, width>>  \* iterator dry: return
+  ELSE \E p \in {FALSE, TRUE} :
+         IF p THEN /\ panicked' = TRUE /\ pc' = "drain"
+                   /\ UNCHANGED <<buf, vlen, idx, del, oldLen, pflag, held, drops, take, width>>
+         ELSE /\ buf' = [buf EXCEPT ![vlen + 1] = NextNew] /\ vlen' = vlen + 1 /\ idx' = idx + 1
+              /\ UNCHANGED <<del, oldLen, pflag, pc, held, drops, take, panicked, width>>
+
+\* move_tail(k): the TailLen elements at tail_start go k slots up
+MoveTail(k) ==
+  /\ buf' = [i \in 1..CAP |-> IF i > oldLen + k /\ i <= oldLen + k + TailLen THEN buf[i - k] ELSE buf[i]]
+  /\ oldLen' = oldLen + k
+  /\ width' = [width EXCEPT ![1] = @ + k]
+
+SPNext ==
+  CASE pc = "fill" ->
+         IF TailLen = 0
+         THEN \* nothing after the range: plain extend
+              IF idx >= take THEN pc' = "done" /\ UNCHANGED <<buf, vlen, idx, del, oldLen, pflag, held, drops, take, panicked, width>>
+              ELSE \E p \in {FALSE, TRUE} :
+                     IF p THEN panicked' = TRUE /\ pc' = "done" /\ UNCHANGED <<buf, vlen, idx, del, oldLen, pflag, held, drops, take, width>>
+                     ELSE /\ buf' = [buf EXCEPT ![vlen + 1] = NextNew] /\ vlen' = vlen + 1 /\ idx' = idx + 1
+                          /\ UNCHANGED <<del, oldLen, pflag, pc, held, drops, take, panicked, width>>
+         ELSE SPFillStep("hint")
+    [] pc = "hint" ->
+         \* size_hint().0: any lower bound the iterator may legally report
+         \E lb \in 0..(take - idx) :
+           IF lb > 0 THEN MoveTail(lb) /\ pc' = "fill2" /\ UNCHANGED <<vlen, idx, del, pflag, held, drops, take, panicked>>
+           ELSE pc' = "collect" /\ UNCHANGED <<buf, vlen, idx, del, oldLen, pflag, held, drops, take, panicked, width>>
+    [] pc = "fill2" -> SPFillStep("collect")
+    [] pc = "collect" ->
+         \* collected.extend(replace_with): every next() may panic; on a panic the temporary vector is dropped
+         IF idx >= take
+         THEN IF held = {} THEN pc' = "drain" /\ UNCHANGED <<buf, vlen, idx, del, oldLen, pflag, held, drops, take, panicked, width>>
+              ELSE MoveTail(Cardinality(held)) /\ pc' = "fill3" /\ UNCHANGED <<vlen, idx, del, pflag, held, drops, take, panicked>>
+         ELSE \E p \in {FALSE, TRUE} :
+                IF p THEN /\ panicked' = TRUE /\ pc' = "drain"
+                          /\ drops' = [i \in DOMAIN drops |-> IF i \in held THEN drops[i] + 1 ELSE drops[i]]
+                          /\ held' = {}
+                          /\ UNCHANGED <<buf, vlen, idx, del, oldLen, pflag, take, width>>
+                ELSE /\ held' = held \cup {NextNew} /\ idx' = idx + 1
+                     /\ UNCHANGED <<buf, vlen, del, oldLen, pflag, pc, drops, take, panicked, width>>
+    [] pc = "fill3" ->
+         \* fill from the collected vector's IntoIter: moves the elements out (no user code runs)
+         IF held = {} \/ vlen >= oldLen
+         THEN /\ pc' = "drain"
+              \* whatever the temporary still owns is dropped with it
+              /\ drops' = [i \in DOMAIN drops |-> IF i \in held THEN drops[i] + 1 ELSE drops[i]]
+              /\ held' = {}
+              /\ UNCHANGED <<buf, vlen, idx, del, oldLen, pflag, take, panicked, width>>
+         ELSE LET x == CHOOSE y \in held : \A z \in held : y <= z IN
+              /\ buf' = [buf EXCEPT ![vlen + 1] = x] /\ vlen' = vlen + 1
+              /\ held' = IF Variant = "leftover_still_owned" THEN held ELSE held \ {x}
+              /\ pflag' = (Variant = "leftover_still_owned" /\ vlen + 1 >= oldLen)
+              /\ UNCHANGED <<idx, del, oldLen, pc, drops, take, panicked, width>>
+    [] pc = "drain" ->
+         \* Drain::drop: move the tail back down to the vector's end, restore the length
+         /\ buf' = IF TailLen > 0 /\ oldLen # vlen THEN [i \in 1..CAP |-> IF i > vlen /\ i <= vlen + TailLen THEN buf[i + (oldLen - vlen)] ELSE buf[i]] ELSE buf
+         /\ vlen' = vlen + TailLen
+         /\ pc' = "done"
+         /\ UNCHANGED <<idx, del, oldLen, pflag, held, drops, take, panicked, width>>
+    [] OTHER -> FALSE
+
 \* ------------------------------------------------------------------ spec
-Init == CASE Machine = "drain_filter" -> DFInit [] Machine = "truncate" -> TRInit [] Machine = "dedup" -> DDInit [] OTHER -> SRInit
-Next == CASE Machine = "drain_filter" -> DFNext [] Machine = "truncate" -> (TRNext \/ TRDone) [] Machine = "dedup" -> DDNext [] OTHER -> SRNext
+Init == CASE Machine = "drain_filter" -> DFInit [] Machine = "truncate" -> TRInit [] Machine = "dedup" -> DDInit
+            [] Machine = "splice" -> SPInit [] OTHER -> SRInit
+Next == CASE Machine = "drain_filter" -> DFNext [] Machine = "truncate" -> (TRNext \/ TRDone) [] Machine = "dedup" -> DDNext
+            [] Machine = "splice" -> SPNext [] OTHER -> SRNext
 Spec == Init /\ [][Next]_vars
 
 \* ------------------------------------------------------------------ laws (when the call is over)
 Over == pc = "done"
-ElemMachine == Machine \in {"drain_filter", "truncate", "dedup"}
+ElemMachine == Machine \in {"drain_filter", "truncate", "dedup", "splice"}
 NoDuplicate == (Over /\ ElemMachine) => Cardinality(ContentSet) = vlen
 NothingDropped == (Over /\ ElemMachine) => \A i \in 1..vlen : drops[buf[i]] = 0
 NothingMovedOut == (Over /\ ElemMachine) => ContentSet \cap held = {}
-NoDoubleDrop == \A i \in Ids : drops[i] <= 1
+NoDoubleDrop == \A i \in DOMAIN drops : drops[i] <= 1
 NoLeakWithoutPanic ==
-  (Over /\ ElemMachine /\ ~panicked) => \A i \in Ids : (IF i \in ContentSet THEN 1 ELSE 0) + (IF i \in held THEN 1 ELSE 0) + drops[i] = 1
+  (Over /\ ElemMachine /\ Machine # "splice" /\ ~panicked) => \A i \in Ids : (IF i \in ContentSet THEN 1 ELSE 0) + (IF i \in held THEN 1 ELSE 0) + drops[i] = 1
+\* splice without a panic: prefix, then every replacement element in order, then the tail
+SpliceResult ==
+  (Over /\ Machine = "splice" /\ ~panicked) =>
+     Content = [i \in 1..del |-> i] \o [i \in 1..take |-> N + i] \o [i \in 1..(N - (oldLen - SPShift)) |-> (oldLen - SPShift) + i]
+\* ... and with a panic: still prefix, some of the new elements in order, the tail -- nothing lost but replacements
+SpliceAfterPanic ==
+  (Over /\ Machine = "splice" /\ panicked) =>
+     \E k \in 0..take :
+        Content = [i \in 1..del |-> i] \o [i \in 1..k |-> N + i] \o [i \in 1..(N - (oldLen - SPShift)) |-> (oldLen - SPShift) + i]
 \* whole characters, each byte in its place
 ValidUtf8 ==
   (Over /\ Machine = "str_retain") =>
